@@ -74,6 +74,10 @@ func runC12(c *Ctx) error {
 		}
 		base := js[0]
 		base.Flags = []string{"-a"}
+		// tokens the syntax part never uses: numbered after the used ones, in every variant alike
+		for k := 0; k < 1+rng.Intn(3); k++ {
+			base.G.Lex = append(base.G.Lex, gram.LexDef{Kind: gram.DTok, Name: fmt.Sprintf("zz_unused%d", k), Pat: gram.StrPattern(fmt.Sprintf("#%d", k))})
+		}
 		grp := &c12Group{base: base}
 		// choose subsets: all in thorough, a rotating selection in quick (always containing each single flag over the run)
 		var chosen [][]string
@@ -99,6 +103,9 @@ func runC12(c *Ctx) error {
 			grp.inputs = append(grp.inputs, in)
 			if inRng.Intn(3) == 0 {
 				src := srcOf(base.Names(in), inRng)
+				if inRng.Intn(4) == 0 {
+					src = append(src, []string{" #0", " #1 #0", "#2"}[inRng.Intn(3)]...)
+				}
 				if inRng.Intn(4) == 0 {
 					src = append(src, []string{" ?", "\n", "\t#\n", "~"}[inRng.Intn(4)]...)
 				}
